@@ -1,9 +1,12 @@
 (* Property C20 -- 6LoWPAN compression and fragmentation are lossless.
    This file contains only the property theorems (each closed by [exact]) and
    [Print Assumptions]; statements are pinned in Pins/C20.v.
-   Step 1 (wire formats): fragment header and LOWPAN_NHC UDP header. *)
+   Step 1 (wire formats): fragment header and LOWPAN_NHC UDP header.
+   Step 2 (fragmentation arithmetic and reassembly): dispatch_sixlowpan / dispatch_sixlowpan_frag,
+   process_sixlowpan_fragment over the C15 tracker. *)
 From SV Require Import Lib.Base Gen.Consts Gen.WireFields Model.WireBase Model.WireSixFrag Model.WireNhc.
-From SV Require Import Proofs.WireBaseProofs Proofs.LowpanWireProofs.
+From SV Require Import Model.Assembler Model.LowpanFrag.
+From SV Require Import Proofs.WireBaseProofs Proofs.AssemblerProofs Proofs.LowpanWireProofs Proofs.LowpanFragProofs.
 
 (* ---------- fragment header (FRAG1 / FRAGN) ---------- *)
 
@@ -87,3 +90,101 @@ Theorem C20_nhc_udp_parse_no_panic : forall b src dst rx, blen b < 65528 ->
      nhc_udp_payload b <> Panic /\ nhc_udp_dispatch_field b <> Panic).
 Proof. exact nhc_udp_no_panic. Qed.
 Print Assumptions C20_nhc_udp_parse_no_panic.
+
+(* ---------- step 2: fragmentation arithmetic (dispatch_sixlowpan, dispatch_sixlowpan_frag) ---------- *)
+
+(* frag_sizes_multiple_of_8_uncompressed, frames fit, nothing lost: for EVERY compressed packet c
+   that needs fragmentation, every MAC header length 5..21, every header_diff = uhdr - chdr >= 0:
+   the first fragment covers a multiple of 8 octets of the UNCOMPRESSED datagram, each FRAGN offset
+   is exactly (position + header_diff) / 8, all FRAGN but the last carry lpf_fn (a multiple of 8)
+   octets, the payloads concatenate to c, and every frame is <= 125 octets. *)
+Theorem C20_frag_send_structure : forall ieee_len c chdr uhdr payload_length tag frames,
+  5 <= ieee_len <= 21 -> 0 <= chdr <= uhdr -> lpf_needs_frag (blen c) ieee_len = true ->
+  blen c <= lpf_BUFFER -> blen c + (uhdr - chdr) < 2048 ->
+  lpf_send ieee_len c chdr uhdr payload_length tag = Ok frames ->
+  let hd := uhdr - chdr in
+  exists f1 fs, frames = f1 :: fs /\
+    fr_hdr f1 = Some (SfFirst ((payload_length + lpf_IPV6_HDR) mod 65536) tag) /\
+    fr_payload f1 = firstn (Z.to_nat (blen (fr_payload f1))) c /\
+    0 < blen (fr_payload f1) < blen c /\ (blen (fr_payload f1) + hd) mod 8 = 0 /\
+    (forall f, In f fs -> exists p n,
+        fr_hdr f = Some (SfNext ((payload_length + lpf_IPV6_HDR) mod 65536) tag ((p + hd) / 8)) /\
+        (p + hd) / 8 * 8 = p + hd /\ 0 <= (p + hd) / 8 < 256 /\ blen (fr_payload f1) <= p /\
+        0 < n <= lpf_fn ieee_len /\ p + n <= blen c /\ (p + n < blen c -> n = lpf_fn ieee_len) /\
+        fr_payload f = firstn (Z.to_nat n) (skipn (Z.to_nat p) c)) /\
+    lpf_fn ieee_len mod 8 = 0 /\
+    concat (map fr_payload frames) = c /\
+    Forall (fun f => lpf_frame_len ieee_len f <= lpf_MAX_FRAME) frames.
+Proof. exact lpf_send_structure. Qed.
+Print Assumptions C20_frag_send_structure.
+
+Theorem C20_unfragmented_frame_fits : forall ieee_len c chdr uhdr payload_length tag,
+  lpf_needs_frag (blen c) ieee_len = false ->
+  lpf_send ieee_len c chdr uhdr payload_length tag = Ok [mkFrame None c] /\
+  lpf_frame_len ieee_len (mkFrame None c) <= lpf_MAX_FRAME.
+Proof. exact lpf_send_small. Qed.
+Print Assumptions C20_unfragmented_frame_fits.
+
+(* frag_offsets_consistent: the sender's offsets are exactly where the receiver places the octets.
+   D = uncompressed datagram, c = compressed packet; the octets behind the headers are the same
+   (Hrest), decompressing the first fragment gives the first f1 + header_diff octets of D (Hdec,
+   discharged for the real decompressor in step 4).  Then every frame of the sender is, as the
+   receiver reads it, a piece of D at the offset named by its header. *)
+Theorem C20_frag_offsets_consistent : forall ieee_len c D chdr uhdr payload_length tag dec1,
+  5 <= ieee_len <= 21 -> 0 <= chdr <= uhdr -> lpf_needs_frag (blen c) ieee_len = true ->
+  blen c <= lpf_BUFFER -> blen c + (uhdr - chdr) < 2048 ->
+  skipn (Z.to_nat chdr) c = skipn (Z.to_nat uhdr) D -> chdr <= blen c -> uhdr <= blen D ->
+  payload_length + lpf_IPV6_HDR = blen D ->
+  chdr <= lpf_f1 ieee_len (uhdr - chdr) ->
+  (forall n, blen D <= n ->
+     dec1 n = Ok (firstn (Z.to_nat (lpf_f1 ieee_len (uhdr - chdr) + (uhdr - chdr))) D)) ->
+  forall frames, lpf_send ieee_len c chdr uhdr payload_length tag = Ok frames ->
+  forall fr, In fr frames -> exists rf, lpf_rx_of_frame dec1 fr = Some rf /\ piece_ok D tag rf.
+Proof. exact lpf_sender_pieces_ok. Qed.
+Print Assumptions C20_frag_offsets_consistent.
+
+(* ---------- step 2: reassembly (process_sixlowpan_fragment, PacketAssembler, slot set) ---------- *)
+
+(* reassembly is exact or silent: from ANY slot-set state satisfying the invariant (in particular
+   a fresh one), ANY sequence of pieces of D (any order, duplicates, omissions, interleaved with
+   completions) never panics, and every datagram delivered is D. *)
+Theorem C20_reassembly_exact_or_nothing : forall D tag now timeout ll_src ll_dst fs ss,
+  lpf_IPV6_HDR <= blen D ->
+  Forall (slot_inv D (ll_src, ll_dst, blen D, tag)) ss -> Forall (piece_ok D tag) fs ->
+  exists ss' ds, lpf_process_all now timeout ll_src ll_dst fs ss = Ok (ss', ds) /\
+                 Forall (slot_inv D (ll_src, ll_dst, blen D, tag)) ss' /\ Forall (fun d => d = D) ds.
+Proof. exact lpf_process_all_safe. Qed.
+Print Assumptions C20_reassembly_exact_or_nothing.
+
+Theorem C20_fresh_slots_satisfy_invariant : forall D k, Forall (slot_inv D k) lpf_slots_new.
+Proof. exact lpf_slots_new_inv. Qed.
+Print Assumptions C20_fresh_slots_satisfy_invariant.
+
+(* lowpan_fragments_reassemble: sender and receiver together, for any arrival order with
+   duplicates and omissions of the sender's frames *)
+Theorem C20_lowpan_fragments_reassemble :
+  forall ieee_len c D chdr uhdr payload_length tag dec1,
+  5 <= ieee_len <= 21 -> 0 <= chdr <= uhdr -> lpf_needs_frag (blen c) ieee_len = true ->
+  blen c <= lpf_BUFFER -> blen c + (uhdr - chdr) < 2048 ->
+  skipn (Z.to_nat chdr) c = skipn (Z.to_nat uhdr) D -> chdr <= blen c -> uhdr <= blen D ->
+  payload_length + lpf_IPV6_HDR = blen D ->
+  chdr <= lpf_f1 ieee_len (uhdr - chdr) ->
+  (forall n, blen D <= n ->
+     dec1 n = Ok (firstn (Z.to_nat (lpf_f1 ieee_len (uhdr - chdr) + (uhdr - chdr))) D)) ->
+  forall frames arrivals rfs now timeout ll_src ll_dst ss,
+    lpf_send ieee_len c chdr uhdr payload_length tag = Ok frames ->
+    incl arrivals frames ->
+    map (lpf_rx_of_frame dec1) arrivals = map Some rfs ->
+    lpf_IPV6_HDR <= blen D ->
+    Forall (slot_inv D (ll_src, ll_dst, blen D, tag)) ss ->
+    exists ss' ds, lpf_process_all now timeout ll_src ll_dst rfs ss = Ok (ss', ds) /\
+                   Forall (slot_inv D (ll_src, ll_dst, blen D, tag)) ss' /\ Forall (fun d => d = D) ds.
+Proof. exact lpf_fragments_reassemble. Qed.
+Print Assumptions C20_lowpan_fragments_reassemble.
+
+(* tie to the configuration in build.rs (regenerated into Gen/Consts.v on every run): the
+   fragmentation buffer bounds the datagram size below the 11-bit field / one-octet offsets,
+   the tracker has at least one segment and there is at least one reassembly slot *)
+Theorem C20_configured_sizes : lpf_BUFFER + 48 < 2048 /\ 1 <= lpf_N /\ 1 <= lpf_SLOTS.
+Proof. exact lpf_config_fits. Qed.
+Print Assumptions C20_configured_sizes.
